@@ -680,12 +680,14 @@ class InterjacentExons(Contract):
         lst = env['interjacent']
         if isinstance(lst, list):
             return [('nothing-collected-at-entry', len(lst) == 0)]
-        rev = env['is_reversed']
+        # the walk starts next to the aligned exon: forwards from the exon ending at the upstream end when there is one, else backwards
+        # from the exon starting at the downstream start (decided from the indices, not from a local of the code)
+        fwd = st.ue > -1
         c = lst.length
         t = z3.Int('t_run')
-        at = (lambda q: st.ds - 1 - q) if rev else (lambda q: st.ue + 1 + q)
+        at = lambda q: z3.If(fwd, st.ue + 1 + q, st.ds - 1 - q)
         cur_skipped = at(k - 1)
-        overlap = z3.And(h.s[cur_skipped] < st.U, st.U < h.e[cur_skipped]) if rev else z3.And(h.s[cur_skipped] < st.D, st.D < h.e[cur_skipped])
+        overlap = z3.If(fwd, z3.And(h.s[cur_skipped] < st.D, st.D < h.e[cur_skipped]), z3.And(h.s[cur_skipped] < st.U, st.U < h.e[cur_skipped]))
         return [('collected=the-run-of-inside-exons-scanned-so-far', z3.And(0 <= c, c <= k, z3.ForAll([t], z3.Implies(z3.And(0 <= t, t < c), z3.And(lst.arr[t] == at(t), self.inside(at(t))))))),
                 ('at-most-one-exon-straddling-the-far-end-was-passed', z3.Or(c == k, z3.And(c == k - 1, k >= 1, overlap)))]
 
